@@ -43,7 +43,7 @@ func runC01(c *ctx) error {
 	var prevSig *pipeline.Signature // another step's signature, for splicing
 	var prevPayload string
 	for iter := 0; done < n && iter < n*6; iter++ {
-		p, src := genParsedPipeline(rng, c.res.Hist, 2)
+		p, src := c.corpusOrGenerated(iter, 6, rng, 2, 0)
 		if p == nil {
 			continue
 		}
